@@ -26,12 +26,26 @@ pub struct Case {
     pub twice: bool,
     pub post: Vec<Op>,
     pub post_vecs: Vec<(u16, Vec<f32>)>,
+    /// the database starts as a bulk-loaded one: `n` nodes and these (src, type, dst) relationships
+    #[serde(default)]
+    pub bulk: Option<(u8, Vec<(u16, u8, u16)>)>,
 }
 
 fn case(pre: &Profile, post: &Profile, many_max: u8) -> BoxedStrategy<Case> {
     let v = || prop::collection::vec((any::<u16>(), c31::vector(DIM)), 0..5);
-    (hist::history(pre), v(), prop_oneof![3 => Just(0u8), 2 => 1u8..=many_max], prop::bool::weighted(0.7), prop::bool::weighted(0.2), hist::history(post), v())
-        .prop_map(|(pre, vecs, many_vecs, close, twice, post, post_vecs)| Case { pre, vecs, many_vecs, close, twice, post, post_vecs })
+    let bulk = prop_oneof![
+        4 => Just(None),
+        1 => (1u8..8, prop::collection::vec((any::<u16>(), 0u8..3, any::<u16>()), 0..8)).prop_map(Some),
+    ];
+    (hist::history(pre), v(), prop_oneof![3 => Just(0u8), 2 => 1u8..=many_max], prop::bool::weighted(0.7), prop::bool::weighted(0.2), hist::history(post), v(), bulk, any::<bool>())
+        .prop_map(|(mut pre, vecs, many_vecs, close, twice, post, post_vecs, bulk, keep_pre)| {
+            if bulk.is_some() && !keep_pre {
+                // vacuum the bulk-loaded database as it is (before its first compaction)
+                pre.retain(|o| !o.is_compaction());
+                pre.truncate(1);
+            }
+            Case { pre, vecs, many_vecs, close, twice, post, post_vecs, bulk }
+        })
         .boxed()
 }
 
@@ -152,7 +166,37 @@ fn vm(r: &Runner, vecs: &BTreeMap<u32, Vec<f32>>) -> VModel {
 
 fn run_case(c: &Case, obs: &mut Obs) -> CaseResult {
     let dir = crate::engine::temp_dir();
+    let mut bulk_model = None;
+    if let Some((n, edges)) = &c.bulk {
+        let mut m = crate::model::Model::new();
+        let mut nodes = Vec::new();
+        for i in 0..*n as usize {
+            let label = LABELS[i % 2].to_string();
+            let iid = m.create_node(std::slice::from_ref(&label));
+            let ext = m.nodes[&iid].ext;
+            let mut props = BTreeMap::new();
+            if i % 3 == 0 {
+                props.insert("p".to_string(), nervusdb::PropertyValue::Int(i as i64));
+                m.nodes.get_mut(&iid).unwrap().props.insert("p".into(), crate::pv::PV::Int(i as i64));
+            }
+            nodes.push(nervusdb::BulkNode { external_id: ext, label, properties: props });
+        }
+        let mut bedges = Vec::new();
+        for (s, t, d) in edges {
+            let (s, d) = (idx(*s, *n as usize) as u32, idx(*d, *n as usize) as u32);
+            let ty = hist::TYPES[*t as usize % hist::TYPES.len()].to_string();
+            *m.edges.entry((s, ty.clone(), d)).or_insert(0) += 1;
+            bedges.push(nervusdb::BulkEdge { src_external_id: m.nodes[&s].ext, rel_type: ty, dst_external_id: m.nodes[&d].ext, properties: BTreeMap::new() });
+        }
+        c31::guarded("bulkload", || nervusdb::bulkload(dir.join("db"), nodes, bedges).map_err(|e| e.to_string()))?;
+        bulk_model = Some(m);
+        obs.class("bulk-loaded-start");
+    }
     let mut r = Runner::new(dir.join("db"), Excl::default())?;
+    if let Some(m) = bulk_model {
+        r.model = m.clone();
+        r.states = vec![m];
+    }
     let mut vecs: BTreeMap<u32, Vec<f32>> = BTreeMap::new();
     let mut indexes: BTreeSet<(String, String)> = BTreeSet::new();
     let mut seg_with_edges = false;
